@@ -34,7 +34,8 @@ print(p)")
     cp "$seed"/demo/*_test.go "$m/$pkg/"
     DEMO="go test -vet=off -count=1 -run TestSeed ./$pkg/"
   else
-    mkdir -p $m/cmd_seed_demo; cp "$seed"/demo/*.go $m/cmd_seed_demo/
+    mkdir -p $m/cmd_seed_demo
+    if ls "$seed"/demo/*.go >/dev/null 2>&1; then cp "$seed"/demo/*.go $m/cmd_seed_demo/; else cp "$seed"/demo/*/*.go $m/cmd_seed_demo/; fi
     DEMO="go run ./cmd_seed_demo"
   fi
 }
